@@ -1,6 +1,6 @@
 (* C32 — characteristics interpolate through their support points (statements only; proofs in C32/Proofs.v) *)
 From Coq Require Import ZArith QArith List Bool.
-From PPV Require Import Base.QN C32.Model C32.Proofs.
+From PPV Require Import Base.QN C32.Model C32.Proofs C32.Whole.
 Import ListNotations.
 Open Scope Q_scope.
 
@@ -50,6 +50,75 @@ Theorem C32_pchip_edge_slope_in_box : forall h0 h1 m0 m1, 0 < h0 -> 0 < h1 -> 0 
   0 <= slope_edge h0 h1 m0 m1 /\ slope_edge h0 h1 m0 m1 <= 3 * m0.
 Proof. exact slope_edge_box. Qed.
 Print Assumptions C32_pchip_edge_slope_in_box.
+
+(* the whole Pchip curve (composition of the piece and slope lemmas over the support list, C32/Whole.v): for strictly increasing
+   abscissae and nondecreasing (nonincreasing) ordinates the characteristic is defined, stays between the two neighbouring
+   support values on every segment, and is monotone on the whole range [x_0, x_n] *)
+Theorem C32_pchip_monotone_data_within_neighbours : forall l p q x, sorted l -> consec p q l -> fst p <= x -> x <= fst q ->
+  (nondecreasing l -> exists v, pchip x l = Some v /\ snd p <= v /\ v <= snd q) /\
+  (nonincreasing l -> exists v, pchip x l = Some v /\ snd q <= v /\ v <= snd p).
+Proof.
+  intros l p q x Hs Hc X1 X2. split; intros Hm; [apply pchip_nondec_within | apply pchip_noninc_within]; assumption.
+Qed.
+Print Assumptions C32_pchip_monotone_data_within_neighbours.
+Theorem C32_pchip_monotone_data_monotone_curve : forall a t x x', t <> [] -> sorted (a :: t) ->
+  fst a <= x -> x <= x' -> x' <= fst (last t a) ->
+  (nondecreasing (a :: t) -> exists v v', pchip x (a :: t) = Some v /\ pchip x' (a :: t) = Some v' /\ v <= v') /\
+  (nonincreasing (a :: t) -> exists v v', pchip x (a :: t) = Some v /\ pchip x' (a :: t) = Some v' /\ v' <= v).
+Proof.
+  intros a t x x' Hne Hs X1 X2 X3. split; intros Hm; [apply pchip_nondec_monotone | apply pchip_noninc_monotone]; assumption.
+Qed.
+Print Assumptions C32_pchip_monotone_data_monotone_curve.
+(* every node slope scipy computes lies in the Fritsch-Carlson box of both neighbouring segments (what the two theorems rest on) *)
+Theorem C32_pchip_all_slopes_in_box : forall p t, t <> [] -> incr p t ->
+  (nondec p t -> exists S, slopes (p :: t) = Some S /\ boxedD boxP (deltas p t) S) /\
+  (noninc p t -> exists S, slopes (p :: t) = Some S /\ boxedD boxN (deltas p t) S).
+Proof. intros p t Hne Hi. split; intros Hm; [apply slopes_boxP | apply slopes_boxN]; assumption. Qed.
+Print Assumptions C32_pchip_all_slopes_in_box.
+Example C32_pchip_whole_nonvacuous :
+  sorted [(0, 0); (1, 1); (3 # 1, 2 # 1)] /\ nondecreasing [(0, 0); (1, 1); (3 # 1, 2 # 1)] /\
+  consec (1, 1) (3 # 1, 2 # 1) [(0, 0); (1, 1); (3 # 1, 2 # 1)] /\ pchip (2 # 1) [(0, 0); (1, 1); (3 # 1, 2 # 1)] = Some (509 # 312) /\
+  sorted [(0, 5 # 1); (1, 1); (3 # 1, 1); (4 # 1, 0)] /\ nonincreasing [(0, 5 # 1); (1, 1); (3 # 1, 1); (4 # 1, 0)] /\
+  pchip (1 # 2) [(0, 5 # 1); (1, 1); (3 # 1, 1); (4 # 1, 0)] = Some (7 # 3).
+Proof.
+  repeat split; try (vm_compute; congruence); try (right; left; split; reflexivity).
+Qed.
+
+(* LogSplineCharacteristic(interpolator_kind="Pchip") as a whole: 10 ** pchip(log10 x) over (log10 x_i, log10 y_i), for every pair
+   lg / pw with the order contract of log10 / 10** (pw (lg y) = y for y > 0, both monotone): positive monotone data give a
+   curve between the neighbouring support values on every segment and monotone on [x_0, x_n] *)
+Theorem C32_logspline_pchip_within_neighbours : forall (lg pw : Q -> Q),
+  (forall y, 0 < y -> pw (lg y) == y) -> (forall a b, a <= b -> pw a <= pw b) ->
+  (forall a b, 0 < a -> a <= b -> lg a <= lg b) -> (forall a b, 0 < a -> a < b -> lg a < lg b) ->
+  forall l p q x, positive l -> sorted l -> consec p q l -> fst p <= x -> x <= fst q ->
+  (nondecreasing l -> exists v, logspline lg pw l x = Some v /\ snd p <= v /\ v <= snd q) /\
+  (nonincreasing l -> exists v, logspline lg pw l x = Some v /\ snd q <= v /\ v <= snd p).
+Proof.
+  intros lg pw H1 H2 H3 H4 l p q x Hp Hs Hc X1 X2. split; intros Hm;
+    [apply (logspline_nondec_within lg pw H1 H2 H3 H4) | apply (logspline_noninc_within lg pw H1 H2 H3 H4)]; assumption.
+Qed.
+Print Assumptions C32_logspline_pchip_within_neighbours.
+Theorem C32_logspline_pchip_monotone_curve : forall (lg pw : Q -> Q),
+  (forall y, 0 < y -> pw (lg y) == y) -> (forall a b, a <= b -> pw a <= pw b) ->
+  (forall a b, 0 < a -> a <= b -> lg a <= lg b) -> (forall a b, 0 < a -> a < b -> lg a < lg b) ->
+  forall a t x x', t <> [] -> positive (a :: t) -> sorted (a :: t) -> fst a <= x -> x <= x' -> x' <= fst (last t a) ->
+  (nondecreasing (a :: t) -> exists v v', logspline lg pw (a :: t) x = Some v /\ logspline lg pw (a :: t) x' = Some v' /\ v <= v') /\
+  (nonincreasing (a :: t) -> exists v v', logspline lg pw (a :: t) x = Some v /\ logspline lg pw (a :: t) x' = Some v' /\ v' <= v).
+Proof.
+  intros lg pw H1 H2 H3 H4 a t x x' Hne Hp Hs X1 X2 X3. split; intros Hm;
+    [apply (logspline_nondec_monotone lg pw H2 H3 H4) | apply (logspline_noninc_monotone lg pw H2 H3 H4)]; assumption.
+Qed.
+Print Assumptions C32_logspline_pchip_monotone_curve.
+(* the contract is satisfiable (identity pair): the theorems are not vacuous in lg / pw *)
+Example C32_logspline_contract_nonvacuous :
+  let lg := fun y : Q => y in let pw := fun y : Q => y in
+  (forall y, 0 < y -> pw (lg y) == y) /\ (forall a b, a <= b -> pw a <= pw b) /\
+  (forall a b, 0 < a -> a <= b -> lg a <= lg b) /\ (forall a b, 0 < a -> a < b -> lg a < lg b) /\
+  positive [(1, 4 # 1); (2 # 1, 1)] /\ logspline lg pw [(1, 4 # 1); (2 # 1, 1)] (3 # 2) = Some (5 # 2).
+Proof.
+  simpl. repeat split; try (intros; assumption); try reflexivity;
+    try (destruct H as [<-|[<-|[]]]; reflexivity).
+Qed.
 
 (* LogSplineCharacteristic = 10 ** f(log10 x): pass-through and range carry over through any order isomorphism
    (log10, 10** are Section variables with their contract; no axiom) *)
